@@ -15,7 +15,7 @@ for d in seeded/[!_]*/; do
 import sys,json,re
 res={}; cur=None
 for l in sys.stdin:
-    m=re.match(r'== (\S+): machinery_error=(\S+) evaluations=(\S+) violations=(\d+)',l)
+    m=re.match(r'== (\S+): machinery_error=(.*?) evaluations=(\S+) violations=(\d+)',l)
     if m: cur=m.group(1).replace('C19B','C19'); res[cur]={'violations':int(m.group(4)),'keys':[],'machinery_error':None if m.group(2)=='None' else m.group(2)}; continue
     m=re.match(r'\s+(\S+) x\d+ ::',l)
     if m and cur: res[cur]['keys'].append(m.group(1))
